@@ -3,6 +3,7 @@
 --       FriVerifier::new + verify on abstract channel data: `ncommit` commitments of which the last one commits to
 --       the remainder `crem`, the α's drawn for them, the query positions and claimed evaluations, the remainder
 --       `rem` the channel presents, and per layer `<merkle flag>/<rows>` (layers separated by '|', rows by ';').
+--   prt …   partition counts / Merkle error kinds, end to end (not modelled: real Merkle verification)
 --   adv …   adversarial end-to-end runs with the default channels (not modelled: α's and positions depend on the hash)
 import Winter.Drv.FriUtil
 
@@ -63,6 +64,9 @@ def handle : List String → String
       withFld f fun fld => vfy fld n r logb maxdeg parts ncommit alphas positions evals rem crem layers
     | _, _, _, _, _, _ => "bad-op"
   | "adv" :: _ => "-"
+  -- partition count / verify_batch error kinds with the default channel and real Merkle trees: the model's Merkle
+  -- check is a flag, so these lines are judged by the harness oracle only
+  | "prt" :: _ => "-"
   | _ => "bad-op"
 
 end Drv.C05
